@@ -513,7 +513,7 @@ class _Reqs2:
         IN = flow.must_facts(ls, ev)
         for bl in ls.blocks:
             for i, st in enumerate(bl.stmts):
-                if st["k"] == "assign" and st["dst"]["l"] == 0 and st["rv"]["k"] == "agg" and st["rv"].get("vname") == "Ok":
+                if ls.is_return_assign(st, "Ok"):
                     t = ev.rvalue(st["rv"], (bl.idx, i))
                     if is_call(t[2][0]) and t[2][0][1].endswith("ServerConfig::seed"):
                         return True, "the plaintext arm returns Ok(config.seed())"
